@@ -21,6 +21,13 @@ LABELS = ["31P", "153Eu", "182W", "56Fe | 56Fe.16O", "A", "Ca44", "13C", "x y", 
           "u" * 32, "238U", "7Li", "E.1", "0", "12", "44Ca#", "#31P", "63Cu #2", "#"]
 SAMPLES = ["Sample 1", "1", "S-2", "line 003", "2", "std_10ppm", "Sample 10", "x", "3", "blank (2)", "Sample #1", "#3", "S#", "a # b #"]
 HASH_FIELDS = ["#", "#N/A", "n/a #2", "1.5 # checked", "#VALUE!"]
+# names a user may type into Qtegra: accents, CJK, Greek, quotes, apostrophes, tabs, leading / trailing / double blanks, a
+# dash that is not ASCII, the line separators Python's str.splitlines knows and the text layer does not (\x0b \x0c \x1c
+# \x85 \u2028), names that repeat (the columns layout only counts them, the rows layout ignores them)
+SAMPLES_X = ["Probe é", "試料 1", "µ-std", '"quoted"', "it's", "a\tb", "Ω", " lead", "trail ", "two  blanks", "Zr–Hf", "naïve café",
+             "page\x0cbreak", "nel\x85", "ls\u2028sep", "vt\x0bx", "fs\x1cx", "Sample", "Sample", "Sample", "'", '"', "«S»", "№ 7"]
+LABELS_X = ["²⁰⁸Pb", "Pb 208", ' 31P', "31P ", '"31P"', "P'", "Fe→FeO", "µ", "αβγ", "試", "é" * 32, "Ca\t44", "Ar\u2028O", "U\x0c238",
+            "<Identifier>", "Sample 1", "1e5", "-1", "NaN", "0.5"]
 
 
 def value_of(tok: str) -> float:
@@ -82,6 +89,67 @@ def number(rng) -> str:
     return repr(rng.random() * 10 ** rng.randint(0, 6))
 
 
+def number_extreme(rng) -> str:
+    """values at the ends of the binary64 range and with 17 significant digits (none overflows to infinity)"""
+    k = rng.random()
+    if k < 0.2:
+        return rng.choice(["1.7976931348623157e308", "-1.7976931348623157E+308", "1e308", "8.98846567431158E+307", "4.9e-324", "5E-324",
+                           "2.2250738585072014e-308", "-2.225073858507201E-308", "1e-400", "-1E-400"])
+    if k < 0.45:
+        return repr(rng.uniform(-1, 1) * 10.0 ** rng.randint(-300, 300))
+    if k < 0.6:
+        return f"{rng.uniform(-10, 10) * 10.0 ** rng.randint(-300, 290):.16E}"          # 17 significant digits, exponent form
+    if k < 0.75:
+        return f"{rng.uniform(0, 1e6):.17g}"                                               # 17 significant digits, positional
+    if k < 0.85:
+        return rng.choice(["12345678901234567890", "-98765432109876543210", "9007199254740993", "18446744073709551616",
+                           "0.1000000000000000055511151231257827", "123456789.123456789123456789"])
+    if k < 0.93:
+        return rng.choice(["0", "-0", "0.0", "-0.0", "0E+00", "-0.0E-00", "0.000000000000000000"])
+    return rng.choice(["1E+05", "1e-7", "-1.5E-300", "6.02214076E+23", "1.0E0", "-1e0"])
+
+
+def labels_many(rng, k):
+    """k distinct isotope labels (mass number + symbol), in an order that is neither numeric nor lexicographic"""
+    syms = ["H", "Li", "Be", "B", "C", "N", "O", "F", "Na", "Mg", "Al", "Si", "P", "S", "Cl", "K", "Ca", "Sc", "Ti", "V", "Cr", "Mn", "Fe",
+            "Co", "Ni", "Cu", "Zn", "Ga", "Ge", "As", "Se", "Br", "Rb", "Sr", "Y", "Zr", "Nb", "Mo", "Ru", "Rh", "Pd", "Ag", "Cd", "In", "Sn",
+            "Sb", "Te", "I", "Cs", "Ba", "La", "Ce", "Pr", "Nd", "Sm", "Eu", "Gd", "Tb", "Dy", "Ho", "Er", "Tm", "Yb", "Lu", "Hf", "Ta", "W",
+            "Re", "Os", "Ir", "Pt", "Au", "Hg", "Tl", "Pb", "Bi", "Th", "U"]
+    out, seen = [], set()
+    while len(out) < k:
+        lab = f"{rng.randint(1, 260)}{rng.choice(syms)}"
+        if lab not in seen:
+            seen.add(lab)
+            out.append(lab)
+    return out
+
+
+def time_tokens(rng, n, m, k, irregular):
+    """[sample][scan][element] -> text of the Time channel.  regular: one interval for the whole acquisition (jitter of
+    1e-5); irregular: every sample has its own intervals (0.05 .. 3.7 s, now and then a long pause, a repeated or an earlier
+    time stamp) and its own start, so the mean interval depends on every sample and every scan"""
+    def fmt(v):
+        tok = f"{v:.5f}".rstrip("0")
+        return tok + "0" if tok.endswith(".") else tok
+
+    if not irregular:
+        dt = rng.choice([1.0049, 0.2, 0.25, 0.50005, 0.1, 2.0])
+        return [[[fmt(0.2 + 0.4 * e + s * dt + rng.choice([0, 1, -1, 2, 3]) * 1e-5) for e in range(k)] for s in range(m)] for i in range(n)]
+    out = []
+    start = rng.choice([0.0, 0.2, 12.5, 3600.0, 9000.125])
+    for i in range(n):
+        t = start + (rng.choice([0.0, 0.3, 7.0, 100.0]) * i)
+        per_scan = []
+        for s in range(m):
+            if s:
+                r = rng.random()
+                t += (rng.choice([0.05, 0.1, 0.25, 0.5, 1.0, 1.0049, 2.0, 3.7]) if r < 0.8 else rng.choice([30.0, 12.34567]) if r < 0.9
+                      else 0.0 if r < 0.95 else -0.5)
+            per_scan.append([fmt(t + 0.4 * e + rng.choice([0, 1, -1, 2, 3]) * 1e-5) for e in range(k)])
+        out.append(per_scan)
+    return out
+
+
 def sample_names(rng, n, p_named):
     """n sample names: drawn from SAMPLES, or numbered ("Sample 3", one time in four "Sample #3")"""
     if rng.random() < p_named and n <= len(SAMPLES):
@@ -102,10 +170,18 @@ def generate(rng, tier):
     m = rng.choice([2, 2, 3, 4, 5, 8, 11])
     k = rng.choice([1, 1, 2, 3, 4])
     big = rng.random()
+    many = False
     if big < 0.04:      # many samples: header lines of the columns layout far longer than any read-ahead buffer
         n, m, k = rng.choice([80, 150, 400]), 2, 1
     elif big < 0.08:    # many scans: every line of the rows layout is long
         n, m, k = 1, rng.choice([300, 1100]), rng.choice([1, 2])
+    elif big < 0.13:    # many elements (a full-mass-range method): 30 .. 120 labels, order of first appearance
+        n, m, k, many = rng.choice([1, 2, 3]), rng.choice([2, 2, 3]), rng.choice([30, 64, 120]), True
+    elif big < 0.15:    # everything moderately large at once
+        n, m, k = rng.choice([20, 30]), rng.choice([20, 25]), rng.choice([2, 3])
+    exotic = rng.random() < 0.15 and n <= 12          # accents, CJK, quotes, tabs, odd separators, repeated sample names
+    irregular = rng.random() < 0.25                    # a Time channel with its own intervals in every sample
+    extreme = rng.random() < 0.12                      # values at the ends of the binary64 range, 17 significant digits
     delimiter, decimal = rng.choice([(",", "."), (";", "."), (";", ",")])
     xname = rng.choice(["X [u]", "X (u)"])
     extra = [c for c in CHANNELS[:-1] if rng.random() < 0.55]
@@ -114,9 +190,19 @@ def generate(rng, tier):
     channels = [xname if c == "X" else c for c in CHANNELS if c in extra]
     if not channels:
         channels = ["Counter"]
-    elements = rng.sample(LABELS, k)
-    samples = sample_names(rng, n, 0.7)
-    dt = rng.choice([1.0049, 0.2, 0.25, 0.50005, 0.1, 2.0])
+    if many:
+        elements = labels_many(rng, k)
+    elif exotic and k <= len(LABELS_X):
+        elements = rng.sample(list(dict.fromkeys(LABELS_X + LABELS[:6])), k)
+    else:
+        elements = rng.sample(list(dict.fromkeys(LABELS + labels_many(rng, 8))), k)
+    if exotic and rng.random() < 0.25:
+        samples = [rng.choice(["Sample", "1", "é"])] * n          # every line has the same name
+    elif exotic:
+        samples = [rng.choice(SAMPLES_X) for _ in range(n)]
+    else:
+        samples = sample_names(rng, n, 0.7)
+    times = time_tokens(rng, n, m, k, irregular) if "Time" in channels else None
     tokens = []
     for i in range(n):
         per_scan = []
@@ -126,10 +212,9 @@ def generate(rng, tier):
                 per_ch = []
                 for ch in channels:
                     if ch == "Time":
-                        tok = f"{0.2 + 0.4 * e + s * dt + rng.choice([0, 1, -1, 2, 3]) * 1e-5:.5f}".rstrip("0")
-                        tok = tok + "0" if tok.endswith(".") else tok
+                        tok = times[i][s][e]
                     else:
-                        tok = hash_field(rng, ch) or number(rng)
+                        tok = hash_field(rng, ch) or (number_extreme(rng) if extreme and rng.random() < 0.5 else number(rng))
                     per_ch.append(tok.replace(".", ",") if decimal == "," else tok)
                 per_el.append(per_ch)
             per_scan.append(per_el)
@@ -137,6 +222,8 @@ def generate(rng, tier):
     kind = rng.choice(["readers", "readers", "load"])
     return {"kind": kind, "use_analog": rng.random() < 0.4, "delimiter": delimiter, "decimal": decimal, "bom": rng.random() < 0.5,
             "eol": rng.choice(["\r\n", "\r\n", "\n"]), "explicit_delimiter": rng.random() < 0.4,
+            "comma_flag": delimiter == ";" and decimal == "." and rng.random() < 0.35,   # comma_decimal=True on a file without commas
+            "path_str": rng.random() < 0.3, "positional": rng.random() < 0.2,
             "acq": {"samples": samples, "nscans": m, "elements": elements, "channels": channels, "tokens": tokens}}
 
 
@@ -232,7 +319,19 @@ OTHER_LINES = ["", "A,B,C", "1,2,3", "0.5\t0.25", "MainRun,1,2", "mainruns,0,31P
 
 
 def generate_other(rng):
-    """text files that are not iCap exports: 0..6 lines, never 'MainRuns' on line 0 or 2"""
+    """text files that are not iCap exports: 0..6 lines, never 'MainRuns' on line 0 or 2; one time in four an export that
+    is preceded by a title line or blank lines, so that MainRuns stands on every line but the first and the third"""
+    if rng.random() < 0.25:
+        delimiter, decimal = rng.choice([(",", "."), (";", "."), (";", ",")])
+        a = small_acq(rng, decimal)
+        layout = rng.choice(["rows", "cols", "cols"])
+        body = [delimiter.join(r) for r in (table_rows(a) if layout == "rows" else table_cols(a))]
+        lead = [rng.choice(["", "Qtegra export", delimiter * 4, "sep=" + delimiter]) for _ in range(1 if layout == "rows" else rng.choice([1, 2, 3]))]
+        lines = lead + body
+        if layout == "rows":
+            lines = lines[:2] + [ln.replace("MainRuns", "Main Runs") for ln in lines[2:3]] + lines[3:]
+        return {"kind": "sniff_other", "lines": lines, "eol": rng.choice(["\n", "\r\n"]), "bom": rng.random() < 0.3, "final_eol": True,
+                "shifted": layout}
     nl = rng.choice([0, 1, 2, 2, 3, 4, 6])
     lines = [rng.choice(OTHER_LINES) for _ in range(nl)]
     for j in range(nl):
@@ -503,3 +602,147 @@ def generate_text(rng, tier, layout=None, edits=None):
     lines = ["" if r is None else delimiter.join(r) for r in t]
     return {"kind": "text", "layout": layout, "edits": list(edits), "lines": lines, "final_eol": final, "delimiter": delimiter,
             "decimal": decimal, "explicit_delimiter": rng.random() < 0.4, "bom": rng.random() < 0.3, "eol": rng.choice(["\r\n", "\n"])}
+
+
+# ----------------------------------------------------------------------------- histories of calls in one process
+# A "history" case: a few files ("contents": exports of small acquisitions in either layout with their own
+# delimiter / decimal mark / BOM / line ends, and texts that are no export) and a list of steps.  A step names one of two
+# paths, optionally writes one of the contents there (`how`: how the file gets there and what happens to its
+# modification time) and then makes some calls on the path.  Every call is judged by what the path holds when it is made.
+#   how = "keep"         : written in place, then os.utime restores the modification time the path had before
+#         "replace-keep" : written beside it with the old modification time, then os.replace (a restore from an
+#                          archive / backup, cp -p, rsync -t: new inode, same time)
+#         "natural"      : written in place, the file system stamps it
+#         "bump"         : written in place, modification time one second later than before
+#         "clock-1s"     : written in place and stamped with one fixed whole second, the same for every file written this way
+#                          (files from an archive or a file system with coarse time stamps: different files, equal times)
+# Path 2 lies in a sub-directory and has the file name of path 0.
+HOWS = ["keep", "keep", "keep", "replace-keep", "replace-keep", "natural", "natural", "bump", "clock-1s", "clock-1s"]
+CALL_SETS = [["sniff"], ["load"], ["sniff", "load"], ["sniff", "load", "data", "params"], ["data"], ["params"], ["load", "load"],
+             ["sniff", "sniff"], ["load", "data"], ["data", "params", "load"]]
+
+
+def history_acq(rng, decimal):
+    n, m, k = rng.choice([1, 2, 2, 3, 4]), rng.choice([2, 2, 3, 4]), rng.choice([1, 1, 2, 3])
+    r = rng.random()
+    if r < 0.55:
+        channels = ["Time", "Analog", "Counter"]
+    elif r < 0.7:
+        channels = ["Time", "Counter"]
+    elif r < 0.8:
+        channels = ["Counter"]
+    else:
+        channels = [c for c in ["Time", "Analog", "Counter"] if rng.random() < 0.7] or ["Analog"]
+    if rng.random() < 0.3:
+        channels = [rng.choice(["X [u]", "X (u)"])] + channels
+    elements = rng.sample(LABELS, k)
+    samples = sample_names(rng, n, 0.6)
+    dt = rng.choice([1.0049, 0.2, 0.25, 0.50005, 0.1, 2.0])
+    tokens = []
+    for i in range(n):
+        per_scan = []
+        for s in range(m):
+            per_el = []
+            for e in range(k):
+                per_ch = []
+                for ch in channels:
+                    if ch == "Time":
+                        tok = f"{0.2 + 0.4 * e + s * dt + rng.choice([0, 1, -1, 2, 3]) * 1e-5:.5f}".rstrip("0")
+                        tok = tok + "0" if tok.endswith(".") else tok
+                    else:
+                        tok = hash_field(rng, ch) or number(rng)
+                    per_ch.append(tok.replace(".", ",") if decimal == "," else tok)
+                per_el.append(per_ch)
+            per_scan.append(per_el)
+        tokens.append(per_scan)
+    return {"samples": samples, "nscans": m, "elements": elements, "channels": channels, "tokens": tokens}
+
+
+def content_size(c) -> int:
+    """bytes of the file a content is written to"""
+    if c["kind"] == "other":
+        body = c["eol"].join(c["lines"]) + (c["eol"] if c["final_eol"] and c["lines"] else "")
+    else:
+        body = text(table_rows(c["acq"]) if c["kind"] == "rows" else table_cols(c["acq"]), c["delimiter"], c["eol"])
+    return len(body.encode("utf-8")) + (3 if c["bom"] else 0)
+
+
+def other_content(rng, size=None):
+    c = generate_other(rng)
+    c = {"kind": "other", "lines": c["lines"], "eol": c["eol"], "bom": c["bom"], "final_eol": c["final_eol"]}
+    if size is not None:            # pad (or rebuild) to exactly `size` bytes: same path, same time, same length
+        c = {**c, "lines": ["1.0,2.0,3.0", "4.0,5.0,6.0"], "bom": False, "eol": "\n", "final_eol": True}
+        short = size - content_size(c)
+        if short >= 1:
+            c["lines"] = c["lines"] + ["7" * (short - 1)]
+        while content_size(c) > size and c["lines"]:
+            c["lines"] = c["lines"][:-1]
+        if content_size(c) < size:
+            c["lines"] = c["lines"] + ["0" * (size - content_size(c) - 1)]
+    return c
+
+
+def call_of(rng, fn, c):
+    """a call on a path that holds content `c`, with the options a user who knows the file would pass"""
+    if fn == "sniff":
+        return {"fn": "sniff"}
+    if c["kind"] == "other":
+        return None
+    has = c["acq"]["channels"]
+    ua = rng.random() < (0.4 if "Analog" in has else 0.08)
+    if not ua and "Counter" not in has and rng.random() < 0.9:
+        ua = True
+    if fn == "load":
+        return {"fn": "load", "use_analog": ua, "full": rng.random() < 0.65}
+    dl = c["delimiter"] if rng.random() < 0.4 else None
+    if fn == "data":
+        return {"fn": "data", "rows": c["kind"] == "rows", "delimiter": dl, "comma": c["decimal"] == ",", "use_analog": ua}
+    return {"fn": "params", "rows": c["kind"] == "rows", "delimiter": dl, "comma": c["decimal"] == ","}
+
+
+def generate_history(rng, tier, script=None, nacq=None):
+    combos = [(",", "."), (";", "."), (";", ",")]
+    rng.shuffle(combos)
+    acqs = []
+    for j in range(nacq or rng.choice([1, 2, 3, 3])):
+        delimiter, decimal = combos[j % 3]
+        acqs.append((history_acq(rng, decimal), delimiter, decimal))
+    contents = []
+
+    def export(layout, j):
+        a, delimiter, decimal = acqs[j % len(acqs)]
+        c = {"kind": layout, "delimiter": delimiter, "decimal": decimal, "bom": rng.random() < 0.4, "eol": rng.choice(["\r\n", "\n"]), "acq": a}
+        contents.append(c)
+        return len(contents) - 1
+
+    if script is None:
+        script = []
+        nsteps = rng.choice([3, 4, 4, 5, 6, 7])
+        for q in range(nsteps):
+            script.append({"path": rng.choice([0, 0, 0, 0, 0, 0, 1, 1, 2]),
+                           "what": rng.choice(["rows", "cols", "rows", "cols", "other", "same", "other-same-size", None, None]),
+                           "acq": rng.randrange(3), "how": rng.choice(HOWS), "calls": rng.choice(CALL_SETS), "mutate": rng.random() < 0.3})
+    cur, steps = {}, []
+    for st in script:
+        p, what = st["path"], st["what"]
+        if p not in cur and what in (None, "same", "other-same-size"):
+            what = rng.choice(["rows", "cols"])
+        if what is None:
+            w = None
+        elif what == "same":
+            w = cur[p]
+        elif what == "other":
+            contents.append(other_content(rng))
+            w = len(contents) - 1
+        elif what == "other-same-size":
+            contents.append(other_content(rng, size=content_size(contents[cur[p]])))
+            w = len(contents) - 1
+        else:
+            w = export(what, st["acq"])
+        if w is not None:
+            cur[p] = w
+        calls = [x for x in (call_of(rng, fn, contents[cur[p]]) for fn in st["calls"]) if x is not None]
+        if not calls:
+            calls = [{"fn": "sniff"}]
+        steps.append({"path": p, "write": w, "how": st["how"], "calls": calls, "mutate": bool(st.get("mutate"))})
+    return {"kind": "history", "contents": contents, "steps": steps}
